@@ -281,7 +281,8 @@ OTHER_VALUE = {"secret": "GEZDGNBVGY3TQOJQ", "issuer": "zz", "algorithm": "SHA25
 
 
 def uri_corruptions(has_issuer):
-    names = ["secret_missing", "secret_empty", "secret_blank", "secret_blank_plus", "secret_undecodable", "secret_bad_char", "no_query",
+    names = ["secret_missing", "secret_empty", "secret_blank", "secret_blank_plus", "secret_padding_only:eq", "secret_padding_only:dash",
+             "secret_padding_only:mixed", "secret_undecodable", "secret_bad_char", "no_query",
              "extra_param:cls", "extra_param:self", "extra_param:label",
              "extra_param:Secret", "extra_param:SECRET", "extra_param:Digits", "extra_param:PERIOD", "extra_param:Algorithm",
              "extra_param:Label", "extra_param:Issuer",
@@ -315,6 +316,10 @@ def corrupt_uri(u, name):
         return join([[k, "%20" if k == "secret" else v] for k, v in items])
     if name == "secret_blank_plus":
         return join([[k, "+%09" if k == "secret" else v] for k, v in items])
+    if name.startswith("secret_padding_only:"):
+        # nothing but the characters the key-text cleaner strips (padding '=', grouping '-', blanks): no key material
+        v2 = {"eq": "%3D%3D%3D", "dash": "-", "mixed": "%3D-%20-%3D"}[name.split(":")[1]]
+        return join([[k, v2 if k == "secret" else v] for k, v in items])
     if name.startswith("extra_param:"):
         # a parameter the format does not define, named like something the loader uses internally
         pn = name.split(":")[1]
@@ -363,7 +368,7 @@ DICT_CORRUPTIONS = (
     "type_missing", "type_unknown:xotp", "type_unknown:empty", "type_unknown:none", "type_unknown:int",
     "v_missing", "v_unknown:0", "v_unknown:2", "v_unknown:99", "v_unknown:-1", "v_unknown:none", "v_unknown:str1",
     "v_unknown:str2", "v_unknown:float", "v_unknown:list",
-    "key_missing", "key_empty", "key_undecodable", "key_given_twice",
+    "key_missing", "key_empty", "key_padding_only:eq", "key_padding_only:dash", "key_padding_only:blank", "key_undecodable", "key_given_twice",
 )
 NON_DICTS = {"not_a_dict:list": [1], "not_a_dict:str": "abc", "not_a_dict:int": 5, "not_a_dict:none": None}
 JSON_TEXTS = {"json_truncated": None, "json_garbage": "nonsense", "json_empty": "", "json_blank": " "}
@@ -383,6 +388,8 @@ def corrupt_dict(d, name):
         del d["key"]
     elif name == "key_empty":
         d["key"] = ""
+    elif name.startswith("key_padding_only:"):
+        d["key"] = {"eq": "====", "dash": "--", "blank": " \t"}[name.split(":")[1]]
     elif name == "key_undecodable":
         d["key"] = "!!!!!!!!"
     elif name == "key_given_twice":
